@@ -335,49 +335,28 @@ func c01KeywordLiterals(c *Ctx) {
 func c01ReaderEscapes(c *Ctx) {
 	c.Rule("R5 escapes: ParseStringLiteralToken decodes exactly the escapes of the specification: \\n \\r \\t \\\" \\\\ to LF CR TAB quote backslash, \\uNNNN and \\UNNNNNNNN, and $${ / %%{ to ${ / %{")
 	rfd, rpkg := c.P.LookupDecl("hclsyntax", "ParseStringLiteralToken")
-	if rfd == nil {
+	rfn := c.P.LookupFunc("hclsyntax", "ParseStringLiteralToken")
+	if rfd == nil || rfn == nil {
 		c.CheckerFail("escapes", "anchor ParseStringLiteralToken does not resolve")
 		return
 	}
 	c.Fn(declName(rpkg, rfd))
-	rsw := findSwitchOn(rfd.Body, func(tag ast.Expr) bool {
-		ix, ok := tag.(*ast.IndexExpr)
-		if !ok {
-			return false
-		}
-		v, ok := charConst(rpkg, ix.Index)
-		return ok && v == 1
-	})
-	if rsw == nil {
-		c.CheckerFail("escapes", "no switch over the escape selector")
-		return
+	// the table is read from SSA: for every append of one constant byte, the values the escape
+	// selector can have there (or the constant entries of a lookup table indexed by the selector)
+	tbl, uni, conflict := readerEscapes(c.P, rfn)
+	if conflict != "" {
+		c.Fail("escapes", "hclsyntax.ParseStringLiteralToken:table", rfd.Pos(), conflict)
 	}
 	reader := map[rune]rune{}
+	for k, v := range tbl {
+		if uni[k] {
+			continue // bytes appended while encoding a \u / \U escape are not a table entry
+		}
+		reader[rune(k)] = rune(v)
+	}
 	hasUnicode := map[rune]bool{}
-	for _, cs := range rsw.Body.List {
-		cc := cs.(*ast.CaseClause)
-		var sels []rune
-		for _, e := range cc.List {
-			if r, ok := charConst(rpkg, e); ok {
-				sels = append(sels, r)
-			}
-		}
-		for _, st := range cc.Body {
-			if es, ok := st.(*ast.AssignStmt); ok && len(es.Rhs) == 1 {
-				if call, ok := es.Rhs[0].(*ast.CallExpr); ok {
-					if bs, ok := appendedBytes(rpkg, call); ok && len(bs) == 1 {
-						for _, s := range sels {
-							reader[s] = bs[0]
-						}
-					}
-				}
-			}
-		}
-		for _, s := range sels {
-			if s == 'u' || s == 'U' {
-				hasUnicode[s] = true
-			}
-		}
+	for k := range uni {
+		hasUnicode[rune(k)] = true
 	}
 	want := map[rune]rune{'n': '\n', 'r': '\r', 't': '\t', '"': '"', '\\': '\\'}
 	for sel, ch := range want {
